@@ -26,6 +26,14 @@ impl Bitstr {
 //@use bitstr.fns Bitstr::bits_range assumed
 //@use bitstr.fns Bitstr::append assumed
 //@use bitstr.fns Bitstr::invert assumed
+//@use bitstr.fns Bitstr::eq_with assumed
+//@use bitstr.fns Bitstr::iter8 assumed
 //@use bitstr.fns Bitstr::new assumed
 //@use bitstr.fns "impl From<Vec<u8>> for Bitstr"::from assumed
+}
+
+//@include preamble/iter8_types.rs
+impl<'a> Iterator for Iter8<'a> {
+    type Item = (u8, u32);
+//@use bitstr.fns "impl<'a> Iterator for Iter8<'a>"::next assumed
 }
